@@ -41,6 +41,10 @@ CHECKS = {
    technique="TLA+ protocol model (MC_BufferSync.tla) + linearizability/quiescence trace spec (BufferConc.tla); real Buffer under a gate scheduler (yield points inserted by tools/instr) in synctest bubbles, schedules enumerated depth-first then seeded random; every schedule's call/return/quiescence history validated by TLC",
    text="TLC checks NoStuckReader/CloseWakesAll/EventuallyServed on the wake-up protocol (and that the protocol without re-posting violates it). The real Buffer, with a yield before every lock/channel/select operation, runs scenario families (up to 3 readers, 3 writes, Close, past/future/cleared deadlines with the clock advancing, deadline re-arm races) under all schedules up to a budget per scenario (exhaustive where marked) plus seeded random schedules; at exact quiescence every unreturned call must be a Read that legitimately waits (empty, open, deadline not passed) and every returned call must linearize on the FIFO spec.",
    note="critical sections are atomic steps; Go's random select choice is uncontrolled; exhaustive only for the scenarios the evidence marks exhaustive; schedule space beyond the budget is sampled"),
+ "C14": dict(engine="vrt-sched", design_ref="DESIGN.md §4 C14",
+   technique="TLA+ delay-line spec (DelayLine.tla) + synchronisation-level model (MC_DelaySync.tla); real DelayFilter under the gate scheduler in real time, free-running producers, router MinDelay in exact virtual time and with jitter in real time; arrival/departure traces validated by TLC",
+   text="TLC checks NeverPanics/LowerBound/NoDup on the two-step arrival + select-loop protocol of delay_filter.go (and that the pinned push-branch assertion is violable). The real DelayFilter runs (a) under the gate scheduler with a yield at every lock/channel/select of delay_filter.go and chunk_queue.go, arrivals racing timer expiry, delays 0..2 ms, (b) with free-running producers and stale chunk timestamps, and the router's MinDelay runs in exact virtual time (also with a slow destination NIC) and with MaxJitter in real time; every arrival, departure, recovered panic and the at-rest point are validated by TLC against DelayLine.tla: lower bound, arrival order (partial order for overlapping hand-ins), exactly once, unmodified, nothing left behind.",
+   note="DelayFilter cannot run under an exact virtual clock (deadline.Before(now) spins), so its runs are real-time: stamps over-approximate spans (no false alarm from noise), liveness judged after waiting up to 3 s; schedules sampled within budget"),
 }
 
 def main():
